@@ -31,6 +31,10 @@ import (
 	"time"
 
 	"github.com/cenkalti/rain/v2/internal/btconn"
+	"github.com/cenkalti/rain/v2/internal/handshaker/incominghandshaker"
+	"github.com/cenkalti/rain/v2/internal/handshaker/outgoinghandshaker"
+	"github.com/cenkalti/rain/v2/internal/mse"
+	"github.com/cenkalti/rain/v2/internal/peersource"
 )
 
 func init() {
@@ -95,6 +99,8 @@ func execPolicy(ops []string) []string {
 			obs = append(obs, execAccept(p, m))
 		case "dial":
 			obs = append(obs, execDial(p, m))
+		case "wiring":
+			obs = append(obs, execWiring())
 		default:
 			obs = append(obs, "unknown-op")
 		}
@@ -143,8 +149,23 @@ func execAccept(p mseParams, m map[string]string) string {
 			}
 		}()
 		sr.setScript(randScriptIncoming(p.xb, unhex(m["padb"]), atoi(m["padd"])))
-		conn, c, e, pid, ihr, err := btconn.Accept(eb, 10*time.Second, getSKey, m["force"] == "1",
-			func(h [20]byte) bool { return m["known"] == "1" && h == arr20(ih) }, arr8(unhex(m["ourext"])), arr20(ourID))
+		hasIH := func(h [20]byte) bool { return m["known"] == "1" && h == arr20(ih) }
+		var conn net.Conn
+		var c mse.CryptoMethod
+		var e [8]byte
+		var pid, ihr [20]byte
+		var err error
+		if m["via"] == "hs" {
+			// through the handshaker goroutine body the torrent starts for every incoming connection
+			h := incominghandshaker.New(eb)
+			resultC := make(chan *incominghandshaker.IncomingHandshaker, 1)
+			h.Run(arr20(ourID), getSKey, hasIH, resultC, 10*time.Second, arr8(unhex(m["ourext"])), m["force"] == "1")
+			<-resultC
+			conn, c, e, pid, ihr, err = h.Conn, h.Cipher, h.Extensions, h.PeerID, arr20(ih), h.Error
+		} else {
+			conn, c, e, pid, ihr, err = btconn.Accept(eb, 10*time.Second, getSKey, m["force"] == "1", hasIH,
+				arr8(unhex(m["ourext"])), arr20(ourID))
+		}
 		if err != nil {
 			res = "err:" + btErrEnum(err)
 			eb.Close()
@@ -447,8 +468,24 @@ func execDial(p mseParams, m map[string]string) string {
 	go func() {
 		defer close(done)
 		sr.setScript(randScriptOutgoing(p.xa, unhex(m["pada"]), atoi(m["padc"])))
-		conn, c, e, pid, err := btconn.Dial(addr, 5*time.Second, 5*time.Second, m["enable"] == "1", m["force"] == "1",
-			arr8(unhex(m["ourext"])), arr20(ih), arr20(unhex(m["ourid"])), make(chan struct{}))
+		var conn net.Conn
+		var c mse.CryptoMethod
+		var e [8]byte
+		var pid [20]byte
+		var err error
+		if m["via"] == "hs" {
+			// through the handshaker the torrent starts for every dialled address: it receives the
+			// configuration flags DisableOutgoingEncryption / ForceOutgoingEncryption as they are
+			h := outgoinghandshaker.New(addr.(*net.TCPAddr), peersource.Manual)
+			resultC := make(chan *outgoinghandshaker.OutgoingHandshaker, 1)
+			h.Run(5*time.Second, 5*time.Second, arr20(unhex(m["ourid"])), arr20(ih), resultC, arr8(unhex(m["ourext"])),
+				m["enable"] != "1", m["force"] == "1")
+			<-resultC
+			conn, c, e, pid, err = h.Conn, h.Cipher, h.Extensions, h.PeerID, h.Error
+		} else {
+			conn, c, e, pid, err = btconn.Dial(addr, 5*time.Second, 5*time.Second, m["enable"] == "1", m["force"] == "1",
+				arr8(unhex(m["ourext"])), arr20(ih), arr20(unhex(m["ourid"])), make(chan struct{}))
+		}
 		if err != nil {
 			res = "err:" + btErrEnum(err)
 			return
@@ -506,11 +543,13 @@ func genPolicy(r *Rng, n int, tier string) []Case {
 			run,
 		}})
 	}
+	cases = append(cases, Case{ID: "policy-wiring", Ops: []string{"wiring"}})
 	rounds := 1
 	if tier == "thorough" {
 		rounds = 4
 	}
-	for round := 0; round < rounds; round++ {
+	for round := 0; round < 2*rounds; round++ {
+		via := []string{"direct", "hs"}[round%2]
 		// ---- Accept: force × getSKey × known info hash × remote kind × where the BT handshake travels
 		for _, force := range []int{0, 1} {
 			for _, haskey := range []int{1, 0} {
@@ -571,7 +610,7 @@ func genPolicy(r *Rng, n int, tier string) []Case {
 								}
 							}
 							add(xa, xb, ih, 14+512+2+68+64+14+512+68+64,
-								fmt.Sprintf("accept force=%d haskey=%d known=%d ih=%s ourid=%s ourext=%s padb=%s padd=%d cb=%s w1=%s n2=%d w2=%s probe=%s",
+								fmt.Sprintf("accept via="+via+" force=%d haskey=%d known=%d ih=%s ourid=%s ourext=%s padb=%s padd=%d cb=%s w1=%s n2=%d w2=%s probe=%s",
 									force, haskey, known, hx(ih), hx(ourID), hx(ourExt), hx(padB), padD, genChunks(r), hx(w1), n2, hx(w2), hx(probe)))
 						}
 					}
@@ -585,7 +624,7 @@ func genPolicy(r *Rng, n int, tier string) []Case {
 					for _, c2 := range []string{"plainok", "close", "refuse"} {
 						xa, xb, ih := r.Bytes(20), r.Bytes(20), r.Bytes(20)
 						add(xa, xb, ih, 14+512+2+68+64+14+512+68+64,
-							fmt.Sprintf("dial enable=%d force=%d ih=%s ourid=%s ourext=%s pada=%s padc=%d c1=%s c2=%s padb=%s padd=%d peerid=%s peerext=%s garb=%s probe=%s",
+							fmt.Sprintf("dial via="+via+" enable=%d force=%d ih=%s ourid=%s ourext=%s pada=%s padc=%d c1=%s c2=%s padb=%s padd=%d peerid=%s peerext=%s garb=%s probe=%s",
 								enable, force, hx(ih), hx(r.Bytes(20)), hx(r.Bytes(8)), hx(r.Bytes(genPadLen(r))), genPadLen(r), c1, c2,
 								hx(r.Bytes(genPadLen(r))), genPadLen(r), hx(r.Bytes(20)), hx(r.Bytes(8)), hx(r.Bytes(60)), hx(r.Bytes(r.Range(1, 24)))))
 					}
